@@ -140,3 +140,42 @@ def judge(ctx, runs, tag):
 def snippet(text, off, width=60):
     a = max(0, off - width // 2)
     return text[a:a + width]
+
+
+def selftest(ctx):
+    """FmtTokens must accept / reject hand-made runs as stated (a self-check of the judge, run on every invocation)."""
+    import copy
+    T = lambda k, t, v="": {"k": k, "t": t, "v": v}
+    src = [T("TkName", "f"), T("TkLeftParen", "("), T("TkString", "'s'", "s"), T("TkRightParen", ")")]
+    swapped = [T("TkName", "f"), T("TkLeftParen", "("), T("TkString", '"s"', "s"), T("TkRightParen", ")")]
+    wrongval = [T("TkName", "f"), T("TkLeftParen", "("), T("TkString", '"t"', "t"), T("TkRightParen", ")")]
+    noparen = [T("TkName", "f"), T("TkString", "'s'", "s")]
+    semi = [T("TkName", "x"), T("TkAssign", "="), T("TkName", "y"), T("TkSemicolon", ";"), T("TkLeftParen", "("), T("TkName", "f"),
+            T("TkRightParen", ")"), T("TkLeftParen", "("), T("TkRightParen", ")")]
+    cfg = lambda q="Preserve", p="Preserve": {"output": {"quote_style": q, "single_arg_call_parens": p}}
+    cover = lambda rid, s, e, rs, re, none=False, inErr=False: {
+        "id": rid, "kind": "cover", "cfg": model_cfg({}), "inErr": inErr, "outErr": 0, "same": True, "in": [], "out": [],
+        "none": none, "s": s, "e": e, "len": 20, "rs": rs, "re": re, "boundary": True, "toks": [[0, 5], [6, 9], [10, 15]]}
+    cases = [
+        (fmt_run(1, cfg(), src, copy.deepcopy(src), False, 0, True), "ACC"),
+        (fmt_run(2, cfg(), src, [T("TkName", "g")] + src[1:], False, 0, False), "REJ"),
+        (fmt_run(3, cfg(), src, swapped, False, 0, False), "REJ"),
+        (fmt_run(4, cfg("Double"), src, swapped, False, 0, False), "ACC"),
+        (fmt_run(5, cfg("Double"), src, wrongval, False, 0, False), "REJ"),
+        (fmt_run(6, cfg(), src, noparen, False, 0, False), "REJ"),
+        (fmt_run(7, cfg(p="Omit"), src, noparen, False, 0, False), "ACC"),
+        (fmt_run(8, cfg(p="Always"), noparen, src, False, 0, False), "ACC"),
+        (fmt_run(9, cfg(), src, copy.deepcopy(src), False, 2, True), "REJ"),
+        (fmt_run(10, cfg(), src, copy.deepcopy(src), True, 1, False), "REJ"),
+        (fmt_run(11, cfg(), src, copy.deepcopy(src), True, 1, True), "ACC"),
+        (idem_run(12, False), "REJ"), (idem_run(13, True), "ACC"),
+        (fmt_run(14, cfg(), semi, semi[:3] + semi[4:], False, 0, False), "REJ"),      # hazard semicolon dropped
+        (fmt_run(15, cfg(), semi[:4], semi[:3], False, 0, False), "ACC"),             # ordinary semicolon dropped
+        (cover(16, 7, 12, 6, 15), "ACC"), (cover(17, 7, 12, 6, 11), "REJ"), (cover(18, 7, 12, 6, 25), "REJ"),
+        (cover(19, 7, 12, 6, 15, inErr=True), "REJ"), (cover(20, 7, 12, 0, 0, none=True), "ACC"),
+    ]
+    v = judge(ctx, [r for r, _ in cases], "selftest")
+    bad = [(r["id"], v[r["id"]][0], want) for r, want in cases if v[r["id"]][0] != want]
+    if bad:
+        raise vlib.ToolError("FmtTokens self-test: (run, verdict, expected) %r" % bad)
+    ctx.note("judge_selftest_runs", len(cases))
